@@ -49,13 +49,14 @@ type structInfo struct {
 }
 
 var (
-	fset           = token.NewFileSet()
-	structs        = map[string]*structInfo{}
-	methods        = map[string]map[string]*ast.FuncDecl{} // receiver type -> method name -> decl
-	funcs          []*ast.FuncDecl                         // package-level functions
-	entries        []entry
-	pkgPrefix      string // "" for package logs, "logrimp." for utils/logs/logrimp
-	asyncCloseBoth bool
+	fset            = token.NewFileSet()
+	structs         = map[string]*structInfo{}
+	methods         = map[string]map[string]*ast.FuncDecl{} // receiver type -> method name -> decl
+	funcs           []*ast.FuncDecl                         // package-level functions
+	entries         []entry
+	pkgPrefix       string // "" for package logs, "logrimp." for utils/logs/logrimp
+	asyncCloseBoth  bool
+	unlocksDeferred bool
 )
 
 // construction-phase helpers: called before the object is published
@@ -659,6 +660,38 @@ func closesBothUnconditionally() bool {
 	return false
 }
 
+// compositeUnlocksDeferred: in every method of the composite types, is every Unlock / RUnlock of the receiver's mutex
+// a DEFERRED call (so that the mutex is released on every path, including a panic raised by a member)?
+func compositeUnlocksDeferred() bool {
+	ok := true
+	for _, t := range []string{"MultipleLogger", "MultipleLoggerWithLoggerSource", "MultipleWritersWithSource"} {
+		for _, m := range methods[t] {
+			if m.Body == nil {
+				continue
+			}
+			deferred := map[*ast.CallExpr]bool{}
+			ast.Inspect(m.Body, func(n ast.Node) bool {
+				if d, isDefer := n.(*ast.DeferStmt); isDefer {
+					deferred[d.Call] = true
+				}
+				call, isCall := n.(*ast.CallExpr)
+				if !isCall {
+					return true
+				}
+				sel, isSel := call.Fun.(*ast.SelectorExpr)
+				if !isSel || (sel.Sel.Name != "Unlock" && sel.Sel.Name != "RUnlock") {
+					return true
+				}
+				if !deferred[call] {
+					ok = false
+				}
+				return true
+			})
+		}
+	}
+	return ok
+}
+
 // analyse adds the accesses of one package directory to [entries]
 func analyse(dir, prefix string, withInit bool) int {
 	structs = map[string]*structInfo{}
@@ -821,6 +854,7 @@ func analyse(dir, prefix string, withInit bool) int {
 
 	if withInit {
 		asyncCloseBoth = closesBothUnconditionally()
+		unlocksDeferred = compositeUnlocksDeferred()
 	}
 	return len(typeNames)
 }
@@ -856,6 +890,8 @@ func main() {
 	b.WriteString("].\n\n")
 	b.WriteString("(* log.go, AsynchronousLoggers.Close: eWriter.Close() and oWriter.Close() are both called in an unconditional\n   position, no return before the second of them *)\n")
 	fmt.Fprintf(&b, "Definition async_close_closes_both : bool := %v.\n", asyncCloseBoth)
+	b.WriteString("\n(* multiple_logger.go, writer.go: in the composite types every Unlock / RUnlock is deferred: the mutex is released on\n   every path, including a panic raised by a member *)\n")
+	fmt.Fprintf(&b, "Definition composite_unlocks_deferred : bool := %v.\n", unlocksDeferred)
 	writeIfChanged(filepath.Join(out, "Gen.v"), b.String())
 	js, _ := json.MarshalIndent(map[string]any{"source": dir, "entries": entries, "async_close_closes_both": asyncCloseBoth}, "", " ")
 	writeIfChanged(filepath.Join(out, "loglocks.json"), string(js)+"\n")
